@@ -14,7 +14,7 @@ use std::time::Duration;
 
 use base64::Engine;
 use pavex::Response;
-use pavex::cookie::config::{CryptoAlgorithm, CryptoRule};
+use pavex::cookie::config::{CryptoAlgorithm, CryptoRule, FallbackConfig};
 use pavex::cookie::{
     Key, Processor, ProcessorConfig, ResponseCookies, SameSite, extract_request_cookies,
     inject_response_cookies,
@@ -225,30 +225,57 @@ fn session_config(cfg: &Json) -> Option<SessionConfig> {
     Some(c)
 }
 
-fn processor(cfg: &Json) -> Option<Processor> {
-    let cr = cfg.get("crypto")?;
-    let mut pc = ProcessorConfig::default();
-    if let Some(b) = cr.get("percent_encode").and_then(|v| v.as_bool()) {
-        pc.percent_encode = b;
+/// Key table of one history: key number -> biscotti master key (generated on first use), so that
+/// "the same key" in two processors of a history is the same key.
+#[derive(Default)]
+struct Keys(std::collections::HashMap<u64, Key>);
+
+impl Keys {
+    fn get(&mut self, n: u64) -> Key {
+        self.0.entry(n).or_insert_with(Key::generate).clone()
     }
-    let alg = match s(cr, "alg")? {
+}
+
+fn algorithm(name: &str) -> Option<Option<CryptoAlgorithm>> {
+    Some(match name {
         "none" => None,
         "sign" => Some(CryptoAlgorithm::Signing),
         "encrypt" => Some(CryptoAlgorithm::Encryption),
         _ => return None,
-    };
+    })
+}
+
+/// `{"alg", "name", "percent_encode"?, "key"?, "fallbacks"?: [[alg, key], ...]}` -> the real `Processor`.
+fn processor(cr: &Json, keys: &mut Keys) -> Option<Processor> {
+    let mut pc = ProcessorConfig::default();
+    if let Some(b) = cr.get("percent_encode").and_then(|v| v.as_bool()) {
+        pc.percent_encode = b;
+    }
+    let alg = algorithm(s(cr, "alg")?)?;
+    let mut fallbacks = Vec::new();
+    if let Some(fb) = cr.get("fallbacks") {
+        for f in fb.as_array()? {
+            let f = f.as_array()?;
+            let algorithm = algorithm(f.first()?.as_str()?)??;
+            let key = keys.get(f.get(1)?.as_u64()?);
+            fallbacks.push(FallbackConfig { key, algorithm });
+        }
+    }
     if let Some(algorithm) = alg {
         pc.crypto_rules.push(CryptoRule {
             cookie_names: vec![s(cr, "name")?.to_string()],
             algorithm,
-            key: Key::generate(),
-            fallbacks: vec![],
+            key: keys.get(cr.get("key").and_then(|v| v.as_u64()).unwrap_or(0)),
+            fallbacks,
         });
     }
     Some(pc.into())
 }
 
 // ---- the client's view of cookies -----------------------------------------------------------------------
+
+/// `pavex_session::State` (the alias is crate-private).
+type ClientMap = std::collections::HashMap<std::borrow::Cow<'static, str>, Value>;
 
 #[derive(Clone)]
 struct ClientCookie {
@@ -498,12 +525,26 @@ impl SetCookie {
 
 async fn history(case: Json) -> Json {
     let Some(cfg) = case.get("cfg") else { return json!({"r": "bad-case"}) };
-    let (Some(config), Some(processor)) = (session_config(cfg), processor(cfg)) else {
+    let Some(config) = session_config(cfg) else {
         return json!({"r": "bad-case"});
     };
     let Some(requests) = case.get("requests").and_then(|v| v.as_array()) else {
         return json!({"r": "bad-case"});
     };
+    // one processor per request: the crypto configuration may change between the requests of a
+    // history (rotation); `crypto` of the request, else the one of the history's configuration
+    let mut keys = Keys::default();
+    let mut processors = Vec::new();
+    for rq in requests {
+        let cr = match rq.get("crypto") {
+            Some(Json::Null) | None => cfg.get("crypto"),
+            c => c,
+        };
+        match cr.and_then(|cr| processor(cr, &mut keys)) {
+            Some(p) => processors.push(p),
+            None => return json!({"r": "bad-case"}),
+        }
+    }
     let sh = Shared::default();
     let inner = InMemorySessionStore::new();
     let store = SessionStore::new(Spy { inner: inner.clone(), sh: sh.clone() });
@@ -512,8 +553,29 @@ async fn history(case: Json) -> Json {
     let mut issued: Vec<Option<ClientCookie>> = Vec::new();
     let mut out = Vec::new();
 
-    for rq in requests {
+    for (rq, processor) in requests.iter().zip(processors.iter()) {
+        // `{"parts": j, "client": {..}}`: the incoming session is assembled by hand
+        // (`IncomingSession::from_parts`) from the id of the j-th issued cookie and the given state
+        let parts: Option<(Option<SessionId>, ClientMap)> = match rq.get("src") {
+            Some(Json::Object(o)) => {
+                let id = o
+                    .get("parts")
+                    .and_then(|v| v.as_u64())
+                    .and_then(|i| issued.get(i as usize).cloned())
+                    .flatten()
+                    .and_then(|c: ClientCookie| c.id);
+                let mut st = ClientMap::new();
+                if let Some(m) = o.get("client").and_then(|v| v.as_object()) {
+                    for (k, v) in m {
+                        st.insert(k.clone().into(), v.clone());
+                    }
+                }
+                Some((id, st))
+            }
+            _ => None,
+        };
         let presented: Option<ClientCookie> = match rq.get("src") {
+            Some(Json::Object(_)) => None,
             Some(Json::String(x)) if x == "none" => None,
             // the cookie in the jar with its value replaced by garbage: must be treated as no cookie
             Some(Json::String(x)) if x == "tampered" => jar.as_ref().and_then(|c| {
@@ -525,25 +587,33 @@ async fn history(case: Json) -> Json {
                 .flatten(),
             _ => jar.clone(),
         };
-        if rq.get("expire").and_then(|v| v.as_bool()).unwrap_or(false) {
-            if let Some(id) = presented.as_ref().and_then(|c| c.id) {
-                let _ = inner.delete(&id).await;
-            }
-        }
         sh.0.lock().unwrap().rem = rq.get("rem").and_then(|v| v.as_u64());
         let empty = Vec::new();
         let ops = rq.get("ops").and_then(|v| v.as_array()).unwrap_or(&empty);
 
         let head = head_with(presented.as_ref().map(|c| c.pair.as_str()));
-        let incoming = match extract_request_cookies(&head, &processor) {
-            Ok(cookies) => IncomingSession::extract(&cookies, &config.cookie),
-            Err(_) => None,
+        let (incoming, in_id) = match parts {
+            Some((Some(id), st)) => (Some(IncomingSession::from_parts(id, st)), Some(id)),
+            Some((None, _)) => (None, None),
+            None => (
+                match extract_request_cookies(&head, processor) {
+                    Ok(cookies) => IncomingSession::extract(&cookies, &config.cookie),
+                    Err(_) => None,
+                },
+                presented.as_ref().and_then(|c| c.id),
+            ),
         };
-        let in_ix = match (&incoming, presented.as_ref().and_then(|c| c.id)) {
+        let in_ix = match (&incoming, in_id) {
             (Some(_), Some(id)) => json!(sh.ix(&id)),
             (Some(_), None) => json!("unknown"),
             (None, _) => Json::Null,
         };
+        // external expiry of the record of the session this request starts with
+        if rq.get("expire").and_then(|v| v.as_bool()).unwrap_or(false) {
+            if let (Some(_), Some(id)) = (&incoming, in_id) {
+                let _ = inner.delete(&id).await;
+            }
+        }
 
         let results: RefCell<Vec<Json>> = RefCell::new(Vec::new());
         let debugs: RefCell<Vec<String>> = RefCell::new(Vec::new());
@@ -556,10 +626,10 @@ async fn history(case: Json) -> Json {
                 debugs.borrow_mut().push(format!("{session:?}"));
             }
             let mut response_cookies = ResponseCookies::new();
-            match finalize_session(Response::ok(), &mut response_cookies, &processor, session).await {
+            match finalize_session(Response::ok(), &mut response_cookies, processor, session).await {
                 Ok(resp) => {
                     let n_cookies = response_cookies.iter().count();
-                    match inject_response_cookies(resp, response_cookies, &processor) {
+                    match inject_response_cookies(resp, response_cookies, processor) {
                         Ok(resp) => {
                             let hs: Vec<String> = resp
                                 .headers()
@@ -607,7 +677,7 @@ async fn history(case: Json) -> Json {
                         // what a server holding the same processor reads back from this cookie
                         let pair = format!("{}={}", sc.name, sc.raw_value);
                         let head = head_with(Some(&pair));
-                        let wire = extract_request_cookies(&head, &processor)
+                        let wire = extract_request_cookies(&head, processor)
                             .ok()
                             .and_then(|cs| cs.get(&config.cookie.name).map(|c| c.value().to_string()))
                             .and_then(|v| parse_wire(&v));
